@@ -261,6 +261,49 @@ def correspond(ctx, scale):
                 if problems:
                     failures.append({'key': f'{cfg["name"]}:compact:' + problems[0].split(' ')[0], 'what': f'{cfg["name"]}: masked call differs from the call on the valid tokens only in {problems}',
                                      'case': dict(name=cfg['name'], L=L)})
+        # (6) ragged BATCH: the masked (b, n) call = the call on the valid tokens concatenated into ONE unpadded sequence (same tokens, same order):
+        # outputs / indices at the valid positions, every loss term (means over the valid tokens) and all codebook statistics.  Since fix 710454f
+        # zeroes padded inputs on entry, paired paddings alone cannot reveal a wrong mask ALIGNMENT any more; this comparison does.
+        if cfg['kind'] in ('vq', 'rvq') and 'stochastic' not in cfg['name']:
+            for rep in range(reps):
+                base = cfg['mk']()
+                cb0 = getattr(base, '_codebook', None) or getattr(base.layers[0], '_codebook', None) if hasattr(base, 'layers') or hasattr(base, '_codebook') else None
+                if cb0 is not None and (float(getattr(cb0, 'threshold_ema_dead_code', 0)) > 0 or not bool(cb0.initted.all())):
+                    break          # dead-code replacement / k-means seeding draw by position in the flattened batch: equal in distribution only
+                mA, mB = copy.deepcopy(base), copy.deepcopy(base)
+                b, n = 3, 5
+                lens = [n, rng.randrange(1, n), rng.randrange(1, n + 1)]
+                m = torch.arange(n)[None, :] < torch.tensor(lens)[:, None]
+                x = torch.randn(b, n, cfg['dim'])
+                xa = torch.where(m[..., None], x, torch.full_like(x, rng.choice([1e4, -3e4, 3e38])))
+                seed = rng.randrange(10 ** 6)
+                try:
+                    ra = call(cfg, mA, xa, m, True, seed)
+                    mB.train(True)
+                    torch.manual_seed(seed)
+                    random.seed(seed)
+                    rb = mB(x[m][None], **({'return_loss_breakdown': True} if cfg['kind'] == 'vq' else {}))
+                except Exception as ex:
+                    failures.append({'key': f'{cfg["name"]}:ragged-compact:exception:{type(ex).__name__}', 'what': repr(ex), 'case': dict(name=cfg['name'])})
+                    continue
+                dist['ragged_compact_equivalence'] = dist.get('ragged_compact_equivalence', 0) + 1
+                evaluations += 1
+                ta, tb = tensors_of(ra), tensors_of(rb)
+                problems = []
+                if not torch.allclose(ta[0][m], tb[0][0], atol=1e-5, rtol=1e-4):
+                    problems.append('valid outputs')
+                if not torch.equal(ta[1][m], tb[1][0]):
+                    problems.append('valid indices')
+                for i, (u, v) in enumerate(zip(ta[2:], tb[2:])):
+                    if u.shape == v.shape and not torch.allclose(u, v, atol=1e-5, rtol=1e-4):
+                        problems.append(f'loss term {i}')
+                sa, sb = state_of(mA), state_of(mB)
+                for k in sa:
+                    if sa[k].dtype.is_floating_point and not torch.allclose(sa[k], sb[k], atol=1e-5, rtol=1e-4):
+                        problems.append('state ' + k)
+                if problems:
+                    failures.append({'key': f'{cfg["name"]}:ragged-compact:' + problems[0].split(' ')[0], 'what': f'{cfg["name"]}: masked ragged batch (lens {lens}) differs from the call on the concatenated valid tokens in {problems}',
+                                     'case': dict(name=cfg['name'], lens=lens)})
         if len(samples) < 4:
             samples.append(dict(config=cfg['name']))
     bad, broken = core.run_cases(ctx, 'c09', HEADER, cases, per_file=40)
